@@ -42,4 +42,9 @@ if fid == 'F-08':
 if fid == 'F-07':
     text, errs, _ = apply_ops(w['doc'], w['ops'])
     out(errs == [None] and ts(text).has_error, 'emitted %r' % text)
+if fid == 'F-33':
+    r = parse(w['input']).rebuild()
+    out(r != w['input'], 'rebuilt %r' % r)
+if fid == 'F-34':
+    pass
 out(False, 'no replayer for this finding')
